@@ -369,6 +369,20 @@ pub fn generate(ctx: &mut Ctx) {
         ctx.case(&format!("{} {}:{}:{}", if snapshot { "snap" } else { "delta" }, hex(&session), serial,
             if es.is_empty() { "-".into() } else { es.join(";") }));
     }
+    // --- large objects: sizes around the powers of two, where chunked encoders and buffered readers change gear
+    {
+        let mut sizes: Vec<usize> = vec![8191, 8192, 8193, 65535, 65536, 65537, 131071, 131072, 131073, 262145];
+        if ctx.tier_thorough { sizes.extend([196608, 196609, 524289, 1048577]); }
+        for (i, sz) in sizes.into_iter().enumerate() {
+            let data: Vec<u8> = (0..sz).map(|j| (j * 31 + i * 7) as u8).collect();
+            let session = rng.bytes(16);
+            if i % 2 == 0 {
+                ctx.case(&format!("snap {}:{}:P,{},{}", hex(&session), 1 + i, hex(b"rsync://h/m/big.roa"), hex(&data)));
+            } else {
+                ctx.case(&format!("delta {}:{}:U,{},{},{}", hex(&session), 1 + i, hex(b"rsync://h/m/big.roa"), hex(&rng.bytes(32)), hex(&data)));
+            }
+        }
+    }
     // --- delta chains: all multisets of size <= 4 (thorough 5) over the boundary values, limits none, 0..6
     let vals: [u64; 6] = [0, 1, 2, 3, u64::MAX - 1, u64::MAX];
     let maxlen = if ctx.tier_thorough { 5 } else { 4 };
